@@ -70,7 +70,7 @@ def prove(hyps, goal, max_vars=40):
         goals = [to_sympy(e.children()[0], syms) - to_sympy(e.children()[1], syms) for e in _eqs(goal)]
     except NotPolynomial:
         return False
-    gens, nonzero = [], set()
+    gens, nonzero, nonzero_polys = [], set(), []
     for h in hyps:
         hs = [h]
         if z3.is_and(h):
@@ -85,6 +85,13 @@ def prove(hyps, goal, max_vars=40):
                     gens.append(sp.expand(num))
                 elif e.decl().kind() in (z3.Z3_OP_GT, z3.Z3_OP_LT, z3.Z3_OP_DISTINCT) or (z3.is_not(e) and z3.is_eq(e.children()[0])):
                     a, b = (e.children()[0].children() if z3.is_not(e) else e.children())
+                    try:
+                        d = sp.together(to_sympy(a, syms) - to_sympy(b, syms))
+                        nz, dn = sp.fraction(d)
+                        if not dn.free_symbols and nz.free_symbols:
+                            nonzero_polys.append(sp.expand(nz))      # p != 0 (also from p > 0, p < 0)
+                    except NotPolynomial:
+                        pass
                     for x, y in ((a, b), (b, a)):
                         if z3.is_const(x) and x.decl().kind() == z3.Z3_OP_UNINTERPRETED and (z3.is_rational_value(y) or z3.is_int_value(y)):
                             val = sp.Rational(str(y.as_fraction())) if z3.is_rational_value(y) else sp.Integer(y.as_long())
@@ -101,8 +108,12 @@ def prove(hyps, goal, max_vars=40):
         t = sp.together(g)
         num, den = sp.fraction(t)
         for fac, _ in sp.factor_list(den)[1]:
-            if not (fac.is_Symbol and fac.name in nonzero):
-                return False
+            if fac.is_Symbol and fac.name in nonzero:
+                continue
+            # a factor of the denominator is non-zero if it divides a polynomial the hypotheses state to be non-zero
+            if any(sp.rem(p, fac, *sorted(p.free_symbols | fac.free_symbols, key=str)) == 0 for p in nonzero_polys):
+                continue
+            return False
         num = sp.expand(num)
         if num == 0:
             continue
